@@ -14,7 +14,7 @@ import vcommon as V
 import fmt_util as F
 from gen import decorate
 
-ASPECTS = ("comments", "comments_tail", "tokens_com", "tokens_order", "crash", "decorated-unparseable")
+ASPECTS = ("comments", "tokens_com", "tokens_order", "crash", "decorated-unparseable")
 
 
 def run(ctx):
